@@ -326,6 +326,19 @@ example : ∃ r0, Reader.new exFile = .ok r0 ∧
        ([], none), ([2, 3], some .eof), ([4, 5], some .eof), ([0], some .eof)] :=
   ⟨_, rfl, by decide⟩
 
+open Hts.Model Hts.Model.ReadAhead in
+/-- Non-vacuity of `readahead_bytes_refine_flat`: over `exFile` with rd = 3 the history `exOps` makes these eleven
+calls into the protocol; an execution over the protocol with that script (then `close`) exists, and whatever any
+such execution returns is the list above. -/
+example : ∃ r0, Reader.new exFile = .ok r0 ∧
+    (gRun r0 exOps).calls exFile ⟨some 0, chainOf exFile 0⟩ =
+      [.next, .next, .next, .next, .seek 30, .next, .seek 0, .next, .next, .next, .next] ∧
+    (∃ outs t, Over ⟨3, chainOf exFile, (gRun r0 exOps).calls exFile ⟨some 0, chainOf exFile 0⟩ ++ [.close], false⟩
+        exFile (gRun r0 exOps)
+        (ReadAhead.init ⟨3, chainOf exFile, (gRun r0 exOps).calls exFile ⟨some 0, chainOf exFile 0⟩ ++ [.close], false⟩)
+        outs t) :=
+  ⟨_, rfl, by decide, readahead_bytes_execution_exists exFile exFile_wf _ exOps 3 (by decide) [.close] (by simp)⟩
+
 example : (flatOf exFile).WF := flatOf_wf exFile_wf
 
 end Hts.Props.C02
